@@ -64,7 +64,7 @@ def _plan(draw, max_rows):
         cols.append({"name": "xi", "kind": "i", "vals": [(i * 7919) % 2001 - 1000 for i in range(n)]})
         cols.append({"name": "xf", "kind": "f", "vals": [[gen.NAN, -3.0, -0.0, 0.0, 0.5, 1.0, 2.5, 1e6][(i * 5 + i // 7) % 8] for i in range(n)]})
     else:
-        xi_pool = st.integers(-1000, 1000) if draw(st.integers(0, 3)) else st.sampled_from([2**53 + 1, 2**53 + 3, 1, 2, -2**53 - 1, 2**60 + 1])
+        xi_pool = st.integers(-1000, 1000) if draw(st.integers(0, 3)) else st.sampled_from([2**53 + 1, 2**53 + 3, 1, 2, -2**53 - 1, 2**55 + 1])
         cols.append({"name": "xi", "kind": "i", "vals": [draw(xi_pool) for _ in range(n)]})       # now and then integers no float64 holds exactly
         cols.append({"name": "xf", "kind": "f", "vals": [draw(st.sampled_from([gen.NAN, -3.0, -0.0, 0.0, 0.5, 1.0, 2.5, 1e6])) for _ in range(n)]})
     # further value columns whose missing value is not NaN: object booleans with None, strings with "", dates with NaT
@@ -255,7 +255,10 @@ def _check_once(plan, data, ctx):
             raise Violation("aggregate: first() is not the group's first row", got=_ints(stat["fi"]))
         if _ints(stat["la"]) != [xi[rows[-1]] for _, rows in gs]:
             raise Violation("aggregate: last() is not the group's last row", got=_ints(stat["la"]))
-        if _ints(stat["su"]) != [sum(xi[r] for r in rows) for _, rows in gs]:
+        sums = [sum(xi[r] for r in rows) for _, rows in gs]
+        if any(abs(s) >= 2**63 for s in sums):
+            ctx.excl("a group's integer sum does not fit into 64 bits: what sum() gives then is not fixed by the statement")
+        elif _ints(stat["su"]) != sums:
             raise Violation("aggregate: sum() differs from the group's sum", got=_ints(stat["su"]))
         if _ints(stat["sl"]) != _ints(stat["su"]):
             raise Violation("aggregate: sum('xi') differs from lambda g: sum(g.xi)")
